@@ -85,20 +85,39 @@ Proof.
 Qed.
 
 (* ---- conversions never panic where the operations call them ---- *)
-Lemma text_of_oid_no_panic : forall o, text_of_oid o <> Panic.
-Proof. intros [|x r]; cbn [text_of_oid]; discriminate. Qed.
-
-Lemma text_of_oid_cons : forall x r, exists t, text_of_oid (x :: r) = Ok t.
-Proof. intros x r. cbn [text_of_oid]. eexists. reflexivity. Qed.
-
-Lemma text_of_oid_ok_iff : forall o, (exists t, text_of_oid o = Ok t) <-> o <> [].
+Lemma print_rest_no_panic : forall l b, print_rest l b <> Panic.
 Proof.
-  intros [|x r]; split.
-  - intros [t H]. discriminate.
-  - intros H. contradiction.
-  - intros _. discriminate.
-  - intros _. apply text_of_oid_cons.
+  induction l as [|c r IH]; intros b; cbn [print_rest]; [discriminate|].
+  destruct (4294967295 <? b * 128 + Z.land c 127); [discriminate|].
+  destruct (Z.land c 128 =? 0); [|apply IH].
+  specialize (IH 0). destruct (print_rest r 0); cbn [bind]; try discriminate. contradiction.
 Qed.
+
+Lemma text_of_oid_no_panic : forall o, text_of_oid o <> Panic.
+Proof.
+  intros [|x r]; cbn [text_of_oid]; [discriminate|].
+  pose proof (print_rest_no_panic r 0) as H. destruct (print_rest r 0); cbn [bind]; try discriminate. contradiction.
+Qed.
+
+Lemma print_rest_err : forall l b e, print_rest l b = Err e -> e = InvalidData.
+Proof.
+  induction l as [|c r IH]; intros b e H; cbn [print_rest] in H; [discriminate|].
+  destruct (4294967295 <? b * 128 + Z.land c 127); [inversion H; reflexivity|].
+  destruct (Z.land c 128 =? 0); [|apply (IH _ _ H)].
+  destruct (print_rest r 0) as [t|e0|] eqn:E; cbn [bind] in H; try discriminate.
+  inversion H; subst. apply (IH 0 e E).
+Qed.
+
+Lemma text_of_oid_err : forall o e, text_of_oid o = Err e -> e = InvalidData.
+Proof.
+  intros [|x r] e H; cbn [text_of_oid] in H; [inversion H; reflexivity|].
+  destruct (print_rest r 0) as [t|e0|] eqn:E; cbn [bind] in H; try discriminate.
+  inversion H; subst. apply (print_rest_err r 0 e E).
+Qed.
+
+(* rendering succeeds only on a non-empty OID (and refuses sub-identifiers above 2^32-1) *)
+Lemma text_of_oid_ok_nonempty : forall o t, text_of_oid o = Ok t -> o <> [].
+Proof. intros [|x r] t H; [discriminate|discriminate]. Qed.
 
 Lemma text_of_oid_nil : text_of_oid [] = Err InvalidData.
 Proof. reflexivity. Qed.
